@@ -20,14 +20,14 @@ import (
 
 func C01() *engine.Scenario {
 	return &engine.Scenario{
-		ID:       "C01",
-		Level:    "fault_enumeration",
-		MapSched: true,
-		Setup:    loadKeys,
-		Rule: "World in the FAULT configuration. Each run: the Uploader (real Parse + SignSteps + json.Marshal) uploads a pipeline rich in signed content; the Backend stub splits it into jobs; the transport then TAMPERS with each job by 1-3 sched-tape-chosen faults that are semantic by construction: corrupt (command, step env name/value, plugin source / config leaf, matrix value / skip, repository URL, a signed pipeline-env value), drop (step env entry, plugin, config key, matrix dimension/adjustment, a mandatory name or an env:: name from signed_fields, a signed variable from the job env), duplicate/reorder plugins, add (env entry, config key, bogus or extra env:: field name), boundary shifts (characters moved between command and repository URL, between an env name and its value, a variable moved between step env and pipeline env), cross-wire another step's signature value, record corruption (algorithm string, a bit of the decoded JWS signature, the JWS header alg/kid), wrong key (another key of the same kind, with and without a forged kid), optionally under a cancelled context. Some jobs stay untouched (control). The Agent (real UnmarshalJSON + Verify) must reject every tampered job. A fault that leaves the reflective dump of (command, env, plugins, matrix), job env on signed names, URL, record and key unchanged is a no-op and counted as trivial. Fingerprint = (fault kinds fired on the job, key kind, step feature set). Non-trivial = at least one certainly-semantic fault fired and Verify was reached.",
-		Real:     []string{"pipeline.Parse", "signature.SignSteps/Sign", "json.Marshal of *Pipeline", "CommandStep.UnmarshalJSON", "signature.Verify (ValuesForFields, requireKeys, canonicalPayload)", "jwx JWS verify, JCS"},
-		Stub:     []string{"Author", "Backend (job splitter)", "tampering transport", "map iteration scheduler (zzverifsim)", "fixed key fixtures"},
-		Assume:   []string{"a tampered job that no longer parses counts as rejected", "one-sided oracle: only faults that are semantic by construction are judged; re-encodings and permutations of the signed-field list denoting the same set are never generated here"},
+		ID:         "C01",
+		Level:      "fault_enumeration",
+		MapSched:   true,
+		Setup:      loadKeys,
+		Rule:       "World in the FAULT configuration. Each run: the Uploader (real Parse + SignSteps + json.Marshal) uploads a pipeline rich in signed content; the Backend stub splits it into jobs; the transport then TAMPERS with each job by 1-3 sched-tape-chosen faults that are semantic by construction: corrupt (command, step env name/value, plugin source / config leaf, matrix value / skip, repository URL, a signed pipeline-env value), drop (step env entry, plugin, config key, matrix dimension/adjustment, a mandatory name or an env:: name from signed_fields, a signed variable from the job env), duplicate/reorder plugins, add (env entry, config key, bogus or extra env:: field name), boundary shifts (characters moved between command and repository URL, between an env name and its value, a variable moved between step env and pipeline env), cross-wire another step's signature value, record corruption (algorithm string, a bit of the decoded JWS signature, the JWS header alg/kid), wrong key (another key of the same kind, with and without a forged kid), optionally under a cancelled context. Some jobs stay untouched (control). The Agent (real UnmarshalJSON + Verify) must reject every tampered job. A fault that leaves the reflective dump of (command, env, plugins, matrix), job env on signed names, URL, record and key unchanged is a no-op and counted as trivial. Fingerprint = (fault kinds fired on the job, key kind, step feature set). Non-trivial = at least one certainly-semantic fault fired and Verify was reached.",
+		Real:       []string{"pipeline.Parse", "signature.SignSteps/Sign", "json.Marshal of *Pipeline", "CommandStep.UnmarshalJSON", "signature.Verify (ValuesForFields, requireKeys, canonicalPayload)", "jwx JWS verify, JCS"},
+		Stub:       []string{"Author", "Backend (job splitter)", "tampering transport", "map iteration scheduler (zzverifsim)", "fixed key fixtures"},
+		Assume:     []string{"a tampered job that no longer parses counts as rejected", "one-sided oracle: only faults that are semantic by construction are judged; re-encodings and permutations of the signed-field list denoting the same set are never generated here"},
 		Runs:       map[string]int{"quick": 10000, "thorough": 500000},
 		TimeoutSec: 120,
 		Run:        runC01,
@@ -94,15 +94,15 @@ func recordKey(sig *gen.Node) string {
 }
 
 type tamper struct {
-	c       *engine.Ctx
-	j       *job
-	other   []*job // other jobs of the same upload (donors)
-	kp      *keyPair
-	keySet  any
-	signed  map[string]bool // env names covered as env::NAME
+	c         *engine.Ctx
+	j         *job
+	other     []*job // other jobs of the same upload (donors)
+	kp        *keyPair
+	keySet    any
+	signed    map[string]bool // env names covered as env::NAME
 	baseTuple string
-	applied []string
-	cancel  bool
+	applied   []string
+	cancel    bool
 }
 
 func (t *tamper) draw(n int, l string) int { return t.c.Sched.Draw(n, l) }
